@@ -372,9 +372,11 @@ _TEXTS = {
             "the relation and bounded in the chain length. Bounded only: longer chains and real proteins (independent implementation of the DSSP rules)."),
     "C16": (_T_PY, "Deductive: compute_contacts for all schemes x explicit/'all' pairs x min/soft-min on a topology with unequal residue sizes and symbolic distances (value "
             "= min or soft-min over exactly the designated atom pairs of the returned label); compute_rdf shell normalisation and histogram convention; centre of "
-            "geometry/mass, gyration tensor, Rg as closed forms on symbolic coordinates; DRID: the running-moments object keeps mean / sum of squared / cubed deviations "
+            "geometry/mass, gyration tensor, Rg as closed forms on symbolic coordinates; inertia tensor I_ab = sum m (r^2 delta_ab - r_a r_b) about the centre of mass (the code's two einsum "
+            "patterns evaluated by definition); density = mass / volume with the Da/nm^3 -> kg/m^3 factor; the three Karplus J-couplings A cos^2(phi+phase) + B cos(phi+phase) + C "
+            "with the published coefficients of every offered model; DRID: the running-moments object keeps mean / sum of squared / cubed deviations "
             "(rational-function identities, all push sequences by induction) and drid_moments returns mean, sqrt(variance), cbrt(third central moment) of the reciprocal "
-            "distances to all partners (loop invariant). Bounded only: DRID partner exclusion (drid.pyx), nematic order, dipoles, J-couplings, principal moments, density, float32."),
+            "distances to all partners (loop invariant). Bounded only: DRID partner exclusion (drid.pyx), nematic order and the eigenvalue-based shape descriptors, dipoles, float32."),
 }
 for _pid, (_t, _lt) in _TEXTS.items():
     PROPS[_pid].update(technique=_t, level_text=_lt, level_note=_N, explanation=_lt.split("Bounded only:")[0].strip())
